@@ -20,14 +20,15 @@ Definition show_ev (e : ev) : string :=
   | EProdPause i => "PP" ++ show_nat i
   | EProdResume i => "PR" ++ show_nat i
   | EClose => "CL"
+  | EAbort => "AB"
   | ERaise => "X"
   end.
 
 Definition show_op_log (l : list ev) : string :=
   match l with [] => "-" | _ => String.concat "," (map show_ev l) end.
 
-(** case = (eager read limit, synchronous-loss transport?, request stream, history) *)
-Definition run_show (c : N * bool * list reqspec * list op) : string :=
-  let '(eager, sync, reqs, ops) := c in
-  let '(s, log) := run eager sync reqs st0 ops in
-  String.concat " " (map show_op_log log) ++ " |" ++ show_bool (s_closing s).
+(** case = (eager read limit, synchronous-loss transport?, timeOut, abortTimeout, request stream, history) *)
+Definition run_show (c : N * bool * option N * option N * list reqspec * list top) : string :=
+  let '(eager, sync, tmo, abt, reqs, ops) := c in
+  let '(t, log) := trun eager sync reqs tmo abt (tst0 tmo) ops in
+  String.concat " " (map show_op_log log) ++ " |" ++ show_bool (s_closing (t_st t)).
